@@ -1,9 +1,95 @@
-(* Property C07 - exact cover (solvor/dlx.py).  Theorems are added as they are proved. *)
+(* Property C07 - exact cover (solvor/dlx.py: solve_exact_cover).
+   Model: SV.C07.Dlx.solve (tied to /repo by the correspondence lemmas generated at every run).
+   Spec:  SV.C07.DlxSpec (exact_cover, all_covers; is_cover / lists_all_covers read an input's matrix,
+          primary and secondary columns).
+   `valid_input inp` = the call names every matrix column (columns=None, or as many names as row 0 is long).
+   `selections r`    = the selections contained in r.solution whatever its shape (None / tuple / list). *)
 From Coq Require Import List Arith Bool ZArith.
-From SV Require Import C07.Dlx C07.DlxSpec.
+From SV Require Import C07.Dlx C07.DlxSpec C07.DlxTop C07.DlxPrefix C07.DlxCheck.
 Import ListNotations.
 
-(* The boolean checker evaluated on the implementation's outputs at every run is sound for the Spec. *)
+(* (1) every selection returned - any flags, any limits, any status - is an exact cover: no row twice, each
+       row covers >= 1 primary column, each primary column exactly once, each secondary at most once *)
+Theorem C07_sound : forall inp r,
+  valid_input inp = true -> solve inp = Done r ->
+  forall S, In S (selections r) -> is_cover inp S.
+Proof. exact solve_sound. Qed.
+Print Assumptions C07_sound.
+
+(* (2) find_all and status OPTIMAL (i.e. not cut by max_solutions = FEASIBLE, nor by max_iter = MAX_ITER):
+       solution is a list, objective its length, and the list contains only exact covers, every exact cover
+       up to the order of its rows, and no cover twice *)
+Theorem C07_complete : forall inp r,
+  valid_input inp = true -> solve inp = Done r -> find_all inp = true -> r_status r = OPTIMAL ->
+  (exists R, r_sol r = SMany R /\ r_obj r = length R) /\ lists_all_covers inp (selections r).
+Proof. exact solve_complete. Qed.
+Print Assumptions C07_complete.
+
+Theorem C07_nodup : forall inp r,
+  valid_input inp = true -> solve inp = Done r -> find_all inp = true -> r_status r = OPTIMAL ->
+  forall i j, i < j < length (selections r) ->
+  ~ same_set (nth i (selections r) []) (nth j (selections r) []).
+Proof. exact solve_nodup. Qed.
+Print Assumptions C07_nodup.
+
+(* beyond the property text: NO answer (cut by max_solutions / max_iter or not, find_all or not) lists the same
+   cover twice, and with find_all the returned list is always an initial segment of a complete duplicate-free
+   list of all exact covers *)
+Theorem C07_nodup_any : forall inp r,
+  valid_input inp = true -> solve inp = Done r ->
+  forall i j, i < j < length (selections r) ->
+  ~ same_set (nth i (selections r) []) (nth j (selections r) []).
+Proof. exact solve_nodup_any. Qed.
+Print Assumptions C07_nodup_any.
+
+Theorem C07_prefix : forall inp r,
+  valid_input inp = true -> solve inp = Done r -> find_all inp = true ->
+  exists R Q, lists_all_covers inp R /\ R = selections r ++ Q.
+Proof. exact solve_prefix. Qed.
+Print Assumptions C07_prefix.
+
+(* the same as C07_complete, including the empty answer *)
+Theorem C07_find_all_uncut : forall inp r,
+  valid_input inp = true -> solve inp = Done r -> find_all inp = true ->
+  r_status r = OPTIMAL \/ r_status r = INFEASIBLE ->
+  lists_all_covers inp (selections r).
+Proof. exact solve_find_all_uncut. Qed.
+Print Assumptions C07_find_all_uncut.
+
+(* (3) unless the iteration limit was hit, INFEASIBLE is reported exactly when no exact cover exists *)
+Theorem C07_infeasible_iff : forall inp r,
+  valid_input inp = true -> solve inp = Done r -> r_status r <> MAX_ITER ->
+  (r_status r = INFEASIBLE <-> ~ exists S, is_cover inp S).
+Proof. exact solve_infeasible_iff. Qed.
+Print Assumptions C07_infeasible_iff.
+
+(* find_all=False: OPTIMAL = one selection, an exact cover *)
+Theorem C07_first : forall inp r,
+  valid_input inp = true -> solve inp = Done r -> find_all inp = false -> r_status r = OPTIMAL ->
+  exists s, r_sol r = SOne s /\ r_obj r = length s /\ is_cover inp s.
+Proof. exact solve_first. Qed.
+Print Assumptions C07_first.
+
+(* (4) status mapping (DlxTop.status_facts): MAX_ITER <-> a search ran and iterations > max_iter; FEASIBLE only
+       with find_all and max_solutions reached; solution None <-> no selection, only with INFEASIBLE / MAX_ITER;
+       shape of solution / objective per find_all *)
+Theorem C07_status : forall inp r, solve inp = Done r -> status_facts inp r.
+Proof. exact solve_status. Qed.
+Print Assumptions C07_status.
+
+(* (5) fuel = number of primary columns + 1 always suffices; the only other outcome is the IndexError of
+       _build_links, raised exactly for a truthy entry beyond the named columns *)
+Theorem C07_fuel : forall inp, solve inp <> OutOfFuel.
+Proof. exact solve_fuel_ok. Qed.
+Print Assumptions C07_fuel.
+
+Theorem C07_index_error : forall inp,
+  solve inp = IndexError <->
+  degenerate inp = false /\ rows_in_range (length (col_names inp)) (mk_rows (matrix inp)) = false.
+Proof. exact solve_index_error. Qed.
+Print Assumptions C07_index_error.
+
+(* the boolean checker evaluated on the IMPLEMENTATION's outputs at every run is sound for the Spec *)
 Theorem C07_spec_check_sound : forall inp r,
   spec_check inp r = true ->
   (forall S, In S (selections r) -> is_cover inp S)
@@ -11,3 +97,77 @@ Theorem C07_spec_check_sound : forall inp r,
         ~ same_set (nth i (selections r) []) (nth j (selections r) [])).
 Proof. exact spec_check_sound. Qed.
 Print Assumptions C07_spec_check_sound.
+
+(* ... and so is the completeness checker evaluated on the implementation's find_all outputs (it compares with an
+   enumeration that is proved to list every exact cover; the statement mentions only the Spec) *)
+Theorem C07_complete_check_sound : forall inp r,
+  input_in_range inp = true -> complete_check inp r = true -> lists_all_covers inp (selections r).
+Proof. exact complete_check_sound. Qed.
+Print Assumptions C07_complete_check_sound.
+
+(* ---------------------------------------------------------------- non-vacuity *)
+Definition T := true.
+Definition F := false.
+Definition ex_matrix : list (list bool) :=
+  [[T;F;T;F]; [F;T;F;F]; [F;T;F;T]; [T;F;F;F]; [F;F;T;F]; [T;T;F;F]; [F;F;T;T]].
+
+(* named columns, one secondary column, find_all: 7 covers, hypotheses of C07_sound/complete/nodup hold *)
+Definition ex_all : input :=
+  {| matrix := ex_matrix; columns := Some [10; 11; 12; 13]; secondary := [13];
+     find_all := true; max_solutions := None; max_iter := 10000000%Z |}.
+Example C07_nonvacuous_find_all :
+  valid_input ex_all = true /\ prim_cols ex_all = [0; 1; 2] /\ sec_cols ex_all = [3]
+  /\ solve ex_all = Done {| r_sol := SMany [[0; 1]; [0; 2]; [3; 1; 4]; [3; 1; 6]; [3; 2; 4]; [5; 4]; [5; 6]];
+                            r_obj := 7; r_iters := 13; r_evals := 12; r_status := OPTIMAL |}.
+Proof. vm_compute. repeat split. Qed.
+
+(* no cover: INFEASIBLE, not MAX_ITER (hypotheses of C07_infeasible_iff) *)
+Definition ex_none : input :=
+  {| matrix := [[T;T;F]; [F;T;T]; [T;F;T]]; columns := None; secondary := [];
+     find_all := false; max_solutions := None; max_iter := 10000000%Z |}.
+Example C07_nonvacuous_infeasible :
+  valid_input ex_none = true
+  /\ solve ex_none = Done {| r_sol := SNone; r_obj := 0; r_iters := 3; r_evals := 3; r_status := INFEASIBLE |}.
+Proof. vm_compute. repeat split. Qed.
+
+(* cut by max_solutions -> FEASIBLE; cut by max_iter -> MAX_ITER with the selections found so far *)
+Definition ex_ms : input :=
+  {| matrix := ex_matrix; columns := None; secondary := [3];
+     find_all := true; max_solutions := Some 2%Z; max_iter := 10000000%Z |}.
+Definition ex_mi : input :=
+  {| matrix := ex_matrix; columns := None; secondary := [3];
+     find_all := true; max_solutions := None; max_iter := 4%Z |}.
+Example C07_nonvacuous_limits :
+  solve ex_ms = Done {| r_sol := SMany [[0; 1]; [0; 2]]; r_obj := 2; r_iters := 4; r_evals := 4; r_status := FEASIBLE |}
+  /\ solve ex_mi = Done {| r_sol := SMany [[0; 1]; [0; 2]]; r_obj := 2; r_iters := 6; r_evals := 5; r_status := MAX_ITER |}.
+Proof. vm_compute. repeat split. Qed.
+
+(* find_all=False on the same matrix: first cover only *)
+Definition ex_first : input :=
+  {| matrix := ex_matrix; columns := None; secondary := [3];
+     find_all := false; max_solutions := None; max_iter := 10000000%Z |}.
+Example C07_nonvacuous_first :
+  valid_input ex_first = true
+  /\ solve ex_first = Done {| r_sol := SOne [0; 1]; r_obj := 2; r_iters := 3; r_evals := 3; r_status := OPTIMAL |}.
+Proof. vm_compute. repeat split. Qed.
+
+(* a ragged row with a truthy entry beyond the named columns: IndexError *)
+Example C07_nonvacuous_index_error :
+  solve {| matrix := [[T;F]; [F;T;T]]; columns := None; secondary := [];
+           find_all := true; max_solutions := None; max_iter := 4%Z |} = IndexError.
+Proof. vm_compute. reflexivity. Qed.
+
+(* the checker accepts a real cover and rejects a selection that covers a column twice *)
+Example C07_nonvacuous_spec_check :
+  cover_check ex_matrix [0; 1; 2] [3] [3; 1; 6] = true /\ cover_check ex_matrix [0; 1; 2] [3] [0; 5] = false.
+Proof. vm_compute. split; reflexivity. Qed.
+
+(* the completeness checker accepts the full list in another order / with rows permuted, rejects a list with one
+   cover missing *)
+Definition res_of (R : list (list nat)) : result :=
+  {| r_sol := SMany R; r_obj := length R; r_iters := 13; r_evals := 12; r_status := OPTIMAL |}.
+Example C07_nonvacuous_complete_check :
+  input_in_range ex_all = true
+  /\ complete_check ex_all (res_of [[5; 6]; [4; 5]; [1; 0]; [0; 2]; [3; 1; 4]; [6; 1; 3]; [3; 2; 4]]) = true
+  /\ complete_check ex_all (res_of [[0; 1]; [0; 2]; [3; 1; 4]; [3; 1; 6]; [3; 2; 4]; [5; 4]]) = false.
+Proof. vm_compute. repeat split. Qed.
